@@ -661,6 +661,17 @@ func GenFeed(r *core.Rand, o Opts) *Feed {
 			delete(f.Assoc, t)
 		}
 	}
+	// is_deleted only means something to a consumer that applies DIFFERENTIAL feeds to a stored data set; the parser
+	// transcribes what the entity carries either way
+	for _, e := range f.Msg.Entity {
+		switch r.Intn(10) {
+		case 0:
+			e.IsDeleted = proto.Bool(true)
+			f.feat("entity-flagged-is_deleted")
+		case 1:
+			e.IsDeleted = proto.Bool(false)
+		}
+	}
 	// FeedEntity.id says nothing about trips and vehicles: two entities that (against the letter of GTFS-realtime) carry the
 	// same id, or an empty one, still describe what they describe
 	if n := len(f.Msg.Entity); n >= 2 && r.Chance(1, 8) {
